@@ -39,6 +39,11 @@ def ask_moment(drv, p, fmin, fmax, f, e):
 # ------------------------------------------------------------------------------------------------
 def check_c01(run, drv, ncases, start=0):
     rng = run.rng
+    if start % 5 == 0:
+        fb = float(rng.choice([0.05, 0.1]))
+        live_vs_fresh(run, rng, "moments_after_inplace_change", rng.random() < 0.5,
+                      [("m0", lambda s_: s_.m0().values), ("m1 in a band", lambda s_: s_.m1(fb, 10.0).values), ("m2", lambda s_: s_.m2().values),
+                       ("Hm0", lambda s_: s_.hm0().values), ("Tm01", lambda s_: s_.tm01().values), ("Tm02 in a band", lambda s_: s_.tm02(fb, 10.0).values)])
     for case in range(start, start + ncases):
         two_d = rng.random() < 0.35
         with warnings.catch_warnings():
@@ -155,6 +160,41 @@ def check_c01(run, drv, ncases, start=0):
 def trig(d):
     r = d * np.pi / 180
     return np.cos(r), np.sin(r), np.cos(2 * r), np.sin(2 * r)
+
+
+def live_vs_fresh(run, rng, what, two_d, accessors, layout=None):
+    """Read bulk parameters of an object, change its density in place (per-frequency factors that move the peak and the
+    band averages), read again: the answers are those of a fresh object built from the changed data."""
+    with warnings.catch_warnings():
+        warnings.simplefilter("ignore")
+        if two_d:
+            base, meta = sp.make_2d(rng, layout=layout, nan_rate=0.0, depth_mode="deep")
+            E0 = meta["E"]
+        else:
+            base, meta = sp.make_1d(rng, layout=layout, nan_rate=0.0, depth_mode="deep")
+            E0 = meta["e"]
+        f = meta["f"]
+        if len(f) < 3:
+            return
+        for nm, fn in accessors:
+            try:
+                fn(base)
+            except Exception:
+                pass
+        fac = np.array([rng.choice([0.1, 1.0, 7.0, 50.0]) for _ in f])
+        base.multiply(fac, ["frequency"], inplace=True)
+        En = E0 * (fac[:, None] if two_d else fac)
+        if two_d:
+            fresh, _ = sp.make_2d(rng, layout=meta["layout"], f=f, d=meta["d"], E=En, depth_mode="deep")
+        else:
+            fresh, _ = sp.make_1d(rng, layout=meta["layout"], f=f, e=En, moments=meta["moments"], depth_mode="deep")
+        run.case(what, key=(two_d, meta["layout"]))
+        for nm, fn in accessors:
+            with np.errstate(all="ignore"):
+                a_, b_ = np.asarray(fn(base), dtype=float), np.asarray(fn(fresh), dtype=float)
+            if a_.shape != b_.shape or not np.allclose(a_, b_, rtol=1e-11, atol=1e-300, equal_nan=True):
+                run.violation("after an in-place change of the density " + nm + " is not that of the changed density (stale value)",
+                              dict(layout=meta["layout"], two_d=two_d, factors=fac.tolist()))
 
 
 def check_c02(run, drv, ncases, start=0):
@@ -303,6 +343,13 @@ def check_c02(run, drv, ncases, start=0):
 
 
 # ------------------------------------------------------------------------------------------------
+def check_c03_live(run, rng):
+    live_vs_fresh(run, rng, "directions_after_inplace_change", True,
+                  [("mean_direction", lambda s_: s_.mean_direction()), ("mean_directional_spread", lambda s_: s_.mean_directional_spread()),
+                   ("peak_direction", lambda s_: s_.peak_direction().values), ("peak_directional_spread", lambda s_: s_.peak_directional_spread().values),
+                   ("mean_a1", lambda s_: s_.mean_a1()), ("mean_b1", lambda s_: s_.mean_b1())])
+
+
 def check_c03(run, drv, ncases, thorough, start=0):
     rng = run.rng
     from ocean_science_utilities.wavespectra.spectrum import WaveSpectrum
@@ -632,6 +679,9 @@ def main(prop, tier, seed):
             cases(check_c02, 800 if thorough else 80)
         elif prop == "C03":
             cases(check_c03, 400 if thorough else 40, thorough)
+            for i in range(40 if thorough else 6):
+                with common.guard(run, f"C03 live object {i}"):
+                    check_c03_live(run, run.rng)
         elif prop == "C04":
             cases(check_c04, 800 if thorough else 80)
     finally:
